@@ -26,6 +26,12 @@
 // unrelated certificate for "matches nothing"), the association data of every
 // record is computed from the certificate its row names for the record's
 // selector / matching type.
+//
+// VERIF_SYSROOTS=1: the process installs the generated root CA as the platform root set
+// (x509.SetFallbackRoots, GODEBUG x509usefallbackroots=1), i.e. every generated chain is
+// also Web-PKI valid; rows carry the same fact as in.sys.
+//
+//go:debug x509usefallbackroots=1
 package danecheck
 
 import (
@@ -52,11 +58,15 @@ import (
 	"testing"
 	"time"
 
+	"github.com/emersion/go-smtp"
 	mockdns "github.com/foxcpp/go-mockdns"
 	"github.com/foxcpp/maddy/framework/dns"
 	"github.com/foxcpp/maddy/framework/exterrors"
+	"github.com/foxcpp/maddy/framework/log"
 	"github.com/foxcpp/maddy/framework/module"
+	"github.com/foxcpp/maddy/internal/smtpconn/pool"
 	"github.com/foxcpp/maddy/internal/target/remote"
+	"github.com/foxcpp/maddy/verifharness/scripted"
 	"github.com/foxcpp/maddy/verifharness/vtrace"
 	miekgdns "github.com/miekg/dns"
 )
@@ -75,8 +85,11 @@ type Rec struct {
 }
 
 type Disc struct {
-	A    string `json:"a"`
-	TLSA string `json:"tlsa"`
+	A      string `json:"a"`
+	TLSA   string `json:"tlsa"`
+	Cname  string `json:"cname"`  // "-" | secure | initial | insecure: the MX name is a CNAME
+	Ctlsa  string `json:"ctlsa"`  // TLSA answer at the canonical name
+	Cmatch string `json:"cmatch"` // the DANE-EE record published there matches this certificate
 }
 
 type Round struct {
@@ -112,6 +125,7 @@ func (r Round) tlsLevel() module.TLSLevel {
 type In struct {
 	Mode   string  `json:"mode"`
 	Rounds []Round `json:"rounds"`
+	Sys    bool    `json:"sys"` // the chains are also valid under the platform trust store
 }
 
 type Row struct {
@@ -128,6 +142,7 @@ type pki struct {
 	interKey *ecdsa.PrivateKey
 	stranger *x509.Certificate
 	perMX    map[string]map[string][]*x509.Certificate // mx -> chain name -> chain
+	keys     map[*x509.Certificate]*ecdsa.PrivateKey   // leaf keys (for the scripted TLS server)
 	serial   int64
 }
 
@@ -174,7 +189,7 @@ func mkPKI(t *testing.T) *pki {
 	inter, interKey := mkCert(t, "verif intermediate CA", true, nil, long0, long1, root, rootKey, 2)
 	stranger, _ := mkCert(t, "stranger", true, nil, long0, long1, nil, nil, 3)
 	p := &pki{t: t, root: root, inter: inter, interKey: interKey, stranger: stranger,
-		perMX: map[string]map[string][]*x509.Certificate{}, serial: 10}
+		perMX: map[string]map[string][]*x509.Certificate{}, keys: map[*x509.Certificate]*ecdsa.PrivateKey{}, serial: 10}
 	p.chains(mxName(1))
 	return p
 }
@@ -188,9 +203,10 @@ func (p *pki) chains(mx string) map[string][]*x509.Certificate {
 	now := time.Now()
 	long0 := now.Add(-24 * time.Hour)
 	p.serial += 3
-	leaf, _ := mkCert(t, mx, false, []string{mx}, long0, now.Add(365*24*time.Hour), p.inter, p.interKey, p.serial)
-	expired, _ := mkCert(t, mx, false, []string{mx}, now.Add(-2*365*24*time.Hour), now.Add(-365*24*time.Hour), p.inter, p.interKey, p.serial+1)
-	wrong, _ := mkCert(t, "other.example.invalid", false, []string{"other.example.invalid"}, long0, now.Add(365*24*time.Hour), p.inter, p.interKey, p.serial+2)
+	leaf, k1 := mkCert(t, mx, false, []string{mx}, long0, now.Add(365*24*time.Hour), p.inter, p.interKey, p.serial)
+	expired, k2 := mkCert(t, mx, false, []string{mx}, now.Add(-2*365*24*time.Hour), now.Add(-365*24*time.Hour), p.inter, p.interKey, p.serial+1)
+	wrong, k3 := mkCert(t, "other.example.invalid", false, []string{"other.example.invalid"}, long0, now.Add(365*24*time.Hour), p.inter, p.interKey, p.serial+2)
+	p.keys[leaf], p.keys[expired], p.keys[wrong] = k1, k2, k3
 	c := map[string][]*x509.Certificate{
 		"leaf":          {leaf},
 		"leaf_int":      {leaf, p.inter},
@@ -213,6 +229,36 @@ func (p *pki) chains(mx string) map[string][]*x509.Certificate {
 	}
 	p.perMX[mx] = c
 	return c
+}
+
+// tlsCert is what a TLS server for mx presenting the named chain is configured with.
+func (p *pki) tlsCert(mx, chain string) tls.Certificate {
+	cs := p.chains(mx)[chain]
+	c := tls.Certificate{PrivateKey: p.keys[cs[0]], Leaf: cs[0]}
+	for _, x := range cs {
+		c.Certificate = append(c.Certificate, x.Raw)
+	}
+	return c
+}
+
+// installSystemRoots makes the generated root CA the platform root set of this process
+// and checks that it took effect (or, without it, that the chains are NOT platform-valid).
+func (p *pki) installSystemRoots(t *testing.T, on bool) {
+	if on {
+		pool := x509.NewCertPool()
+		pool.AddCert(p.root)
+		x509.SetFallbackRoots(pool)
+	}
+	leaf := p.chains(mxName(1))["leaf_int"]
+	inters := x509.NewCertPool()
+	inters.AddCert(p.inter)
+	_, err := leaf[0].Verify(x509.VerifyOptions{DNSName: mxName(1), Intermediates: inters})
+	if on && err != nil {
+		t.Fatalf("HARNESS: generated CA installed as platform root but the chain does not verify: %v", err)
+	}
+	if !on && err == nil {
+		t.Fatal("HARNESS: generated chain verifies under the platform trust store without being installed")
+	}
 }
 
 // assoc computes the certificate association data. Out-of-range selector /
@@ -335,6 +381,7 @@ type discEnv struct {
 	mock  *mockdns.Server
 	srv   *miekgdns.Server
 	res   *dns.ExtResolver
+	p     *pki
 	zmu   sync.RWMutex            // the mock server reads the map while answering
 	zones map[string]mockdns.Zone // shared with the mock server; replaced between rows
 
@@ -342,13 +389,13 @@ type discEnv struct {
 	held map[string]chan struct{} // MX name -> closed when its answers may go out
 }
 
-func newDiscEnv(t *testing.T) *discEnv {
+func newDiscEnv(t *testing.T, p *pki) *discEnv {
 	zones := map[string]mockdns.Zone{}
 	mock, err := mockdns.NewServerWithLogger(zones, nopLogger{}, false)
 	if err != nil {
 		t.Fatal(err)
 	}
-	e := &discEnv{mock: mock, zones: zones, held: map[string]chan struct{}{}}
+	e := &discEnv{mock: mock, zones: zones, held: map[string]chan struct{}{}, p: p}
 	pc, err := net.ListenPacket("udp4", "127.0.0.1:0")
 	if err != nil {
 		t.Fatal(err)
@@ -441,14 +488,36 @@ func (e *discEnv) addZones(mx string, in Round, recs []dns.TLSA) {
 			in.Disc.TLSA = "nodata"
 		}
 	}
-	switch in.Disc.A {
-	case "ad":
-		z[host] = mockdns.Zone{AD: true, A: []string{"127.0.0.1"}}
-	case "noad":
-		z[host] = mockdns.Zone{AD: false, A: []string{"127.0.0.1"}}
-	case "servfail":
-		z[host] = mockdns.Zone{Err: fmt.Errorf("scripted SERVFAIL")}
-	case "nxdomain":
+	if in.Disc.Cname != "" && in.Disc.Cname != "-" {
+		// the MX name is an alias; the address record lives at the canonical name
+		cn := "c-" + host
+		z[host] = mockdns.Zone{AD: in.Disc.Cname != "insecure", CNAME: cn}
+		z[cn] = mockdns.Zone{AD: in.Disc.Cname == "secure", A: []string{"127.0.0.1"}}
+		ctn := "_25._tcp." + cn
+		crec := dns.TLSA{Hdr: miekgdns.RR_Header{Name: ctn, Rrtype: miekgdns.TypeTLSA, Class: miekgdns.ClassINET, Ttl: 3600},
+			Usage: 3, Selector: 1, MatchingType: 1, Certificate: assoc(1, 1, e.p.certOf(mx, in.Chain, in.Disc.Cmatch))}
+		cmisc := map[miekgdns.Type][]miekgdns.RR{miekgdns.Type(miekgdns.TypeTLSA): {&crec}}
+		switch in.Disc.Ctlsa {
+		case "recs_ad":
+			z[ctn] = mockdns.Zone{AD: true, Misc: cmisc}
+		case "recs_noad":
+			z[ctn] = mockdns.Zone{AD: false, Misc: cmisc}
+		case "nodata":
+			z[ctn] = mockdns.Zone{AD: true, TXT: []string{"not a TLSA record"}}
+		case "servfail":
+			z[ctn] = mockdns.Zone{Err: fmt.Errorf("scripted SERVFAIL")}
+		case "nxdomain":
+		}
+	} else {
+		switch in.Disc.A {
+		case "ad":
+			z[host] = mockdns.Zone{AD: true, A: []string{"127.0.0.1"}}
+		case "noad":
+			z[host] = mockdns.Zone{AD: false, A: []string{"127.0.0.1"}}
+		case "servfail":
+			z[host] = mockdns.Zone{Err: fmt.Errorf("scripted SERVFAIL")}
+		case "nxdomain":
+		}
 	}
 	rrs := make([]miekgdns.RR, 0, len(recs))
 	for i := range recs {
@@ -605,7 +674,124 @@ func runDelivery(t *testing.T, p *pki, e *discEnv, r Row) rowOut {
 	return ro
 }
 
-func runRow(t *testing.T, p *pki, env func() *discEnv, r Row) rowOut {
+// ---- a delivery attempt of the real remote target (attemptMX in front of mx_auth.dane) ----
+
+// probe is an MXAuthPolicy placed after mx_auth.dane: the TLS level it is handed in
+// CheckConn is what the policies before it (the TLS client and DANE) have established.
+type probe struct {
+	mu     sync.Mutex
+	called bool
+	tls    module.TLSLevel
+	mx     string
+}
+
+func (p *probe) Start(*module.MsgMetadata) module.DeliveryMXAuthPolicy { return p }
+func (p *probe) Weight() int                                           { return 900 }
+func (p *probe) PrepareDomain(context.Context, string)                 {}
+func (p *probe) PrepareConn(context.Context, string)                   {}
+func (p *probe) CheckMX(context.Context, module.MXLevel, string, string, bool) (module.MXLevel, error) {
+	return module.MXNone, nil
+}
+func (p *probe) CheckConn(_ context.Context, _ module.MXLevel, tlsLevel module.TLSLevel, _, mx string, _ tls.ConnectionState) (module.TLSLevel, error) {
+	p.mu.Lock()
+	p.called, p.tls, p.mx = true, tlsLevel, mx
+	p.mu.Unlock()
+	return module.TLSNone, nil
+}
+func (p *probe) Reset(*module.MsgMetadata) {}
+
+const (
+	idnDomain = "idn.example.invalid"
+	idnMX     = "mx1.xn--e1afmkfd.invalid" // A-label form, as MX records carry it
+)
+
+func runTarget(t *testing.T, p *pki, e *discEnv, r Row, sys bool) rowOut {
+	if sys {
+		t.Fatalf("row %d: target rows need a process without platform-trusted chains", r.ID)
+	}
+	rd := r.In.Rounds[0]
+	ro := rowOut{Rounds: make([]out, 1)}
+	o := &ro.Rounds[0]
+	ctx, cancel := context.WithTimeout(context.Background(), 90*time.Second)
+	defer cancel()
+	e.releaseAll()
+	e.clearZones()
+	e.addZones(idnMX, rd, p.tlsa(idnMX, rd))
+	e.zmu.Lock()
+	e.zones[idnDomain+"."] = mockdns.Zone{MX: []net.MX{{Host: idnMX + ".", Pref: 10}}}
+	e.zmu.Unlock()
+
+	cert := p.tlsCert(idnMX, rd.Chain)
+	srv, err := scripted.NewSMTPServer(scripted.SMTPServerConfig{Name: "idnmx", Hostname: idnMX,
+		NoSTARTTLS: !rd.HS, TLS: &tls.Config{Certificates: []tls.Certificate{cert}}})
+	if err != nil {
+		t.Fatalf("row %d: SMTP server: %v", r.ID, err)
+	}
+	defer srv.Close()
+	snet := scripted.NewSMTPNet()
+	snet.Add(idnMX, srv)
+	pr := &probe{}
+	nolog := log.Logger{Out: log.NopOutput{}}
+	rt := remote.VerifRemoteNewTarget(remote.VerifRemoteConfig{
+		Hostname:    "client.example.org",
+		Resolver:    &mockdns.Resolver{Zones: map[string]mockdns.Zone{}},
+		Dialer:      snet.DialContext,
+		ExtResolver: e.res,
+		TLSConfig:   &tls.Config{},
+		Policies:    []module.MXAuthPolicy{remote.VerifRemoteDANEPolicy(e.res, nolog), pr},
+		Pool: pool.Config{MaxKeys: 100, MaxConnsPerKey: 5, MaxConnLifetimeSec: 150,
+			StaleKeyLifetimeSec: 300},
+		ConnReuseLimit:    10,
+		ConnectTimeout:    20 * time.Second,
+		CommandTimeout:    20 * time.Second,
+		SubmissionTimeout: 20 * time.Second,
+		Log:               nolog,
+	})
+	defer rt.Close()
+	guard(o, func() {
+		meta := &module.MsgMetadata{ID: fmt.Sprintf("row%d", r.ID), DontTraceSender: true, SMTPOpts: smtp.MailOptions{},
+			OriginalFrom: "sender@example.org"}
+		d, err := rt.Start(ctx, meta, "sender@example.org")
+		if err != nil {
+			t.Fatalf("row %d: target Start: %v", r.ID, err)
+		}
+		aerr := d.AddRcpt(ctx, "rcpt@"+idnDomain, smtp.RcptOptions{})
+		_ = d.Abort(ctx)
+		o.Observed = true
+		pr.mu.Lock()
+		called, lvl := pr.called, pr.tls
+		pr.mu.Unlock()
+		o.Level = levelName(lvl)
+		if aerr != nil {
+			o.Err = aerr.Error()
+			o.Refuse = true
+			o.Temp = exterrors.IsTemporary(aerr)
+			if isTimeout(aerr) {
+				ro.Infra = "time-out during the delivery attempt: " + aerr.Error()
+			}
+		}
+		o.Auth = aerr == nil && called && lvl == module.TLSAuthenticated
+	})
+	if snet.TimedOut {
+		ro.Infra = "scripted SMTP network timed out"
+	}
+	return ro
+}
+
+func runRow(t *testing.T, p *pki, env func() *discEnv, r Row, sys bool) rowOut {
+	if r.In.Sys != sys {
+		t.Fatalf("row %d: in.sys=%v but this process has VERIF_SYSROOTS=%v", r.ID, r.In.Sys, sys)
+	}
+	if len(r.In.Rounds) == 1 && r.In.Rounds[0].Lookup == "target" {
+		var ro rowOut
+		for attempt := 0; attempt < 3; attempt++ {
+			ro = runTarget(t, p, env(), r, sys)
+			if ro.Infra == "" {
+				break
+			}
+		}
+		return ro
+	}
 	in := r.In
 	real := func(lk string) bool { return lk == "disc" || lk == "wire" }
 	if len(in.Rounds) == 1 && !real(in.Rounds[0].Lookup) {
@@ -645,10 +831,12 @@ func TestReplay(t *testing.T) {
 	defer w.Flush()
 
 	p := mkPKI(t)
+	sys := os.Getenv("VERIF_SYSROOTS") == "1"
+	p.installSystemRoots(t, sys)
 	var env *discEnv
 	getEnv := func() *discEnv {
 		if env == nil {
-			env = newDiscEnv(t)
+			env = newDiscEnv(t, p)
 		}
 		return env
 	}
@@ -670,7 +858,7 @@ func TestReplay(t *testing.T) {
 			In json.RawMessage `json:"in"`
 		}
 		_ = json.Unmarshal(sc.Bytes(), &generic)
-		o := runRow(t, p, getEnv, r)
+		o := runRow(t, p, getEnv, r, sys)
 		tr := vtrace.New(w, r.ID)
 		tr.Emit("Row", vtrace.Ev{"in": generic.In, "out": o})
 		n++
